@@ -109,7 +109,7 @@ def main():
             c.violation("C06:pair:crash", "comparing step type %s with %s: exit status %s: %s" % (ca, cb, o["rc"], o["stderr"][:300]), replay)
         elif (o["rc"], o["stderr"]) != (v2["new"]["rc"], v2["new"]["stderr"]):
             c.violation("C06:pair:nondeterministic", "comparing %s with %s twice gave different results" % (ca, cb), replay)
-        elif ca == cb and (o["rc"] != 0 or o["warnings"] or o["errors"]):
+        elif a == b and (o["rc"] != 0 or o["warnings"] or o["errors"]):      # the same model text (two types can share a shape class)
             c.violation("C06:pair:not-reflexive", "a model with step type %s compared with itself: %s" % (ca, o["stderr"][-200:]), replay)
     for x in cases[:3]:
         c.sample(x)
